@@ -289,6 +289,10 @@ class Profiles:
             predefined basic macros which may always be used in
             ``Profiles._TOKEN_MACROS`` and ``Profiles._MACROS``.
         """
+        if profile in self._profileNames:
+            # a registered profile is replaced by the new definition
+            self.removeProfile(profile)
+
         if macros:
             # check if known macros would change and if yes reset properties
             if len(set(macros.keys()).intersection(list(self._usedMacros.keys()))):
@@ -306,9 +310,7 @@ class Profiles:
                 macros = {}
 
         # save name and raw props/macros if macros change to completely reset
-        if profile not in self._profileNames:
-            # else the profile is redefined
-            self._profileNames.append(profile)
+        self._profileNames.append(profile)
         self._rawProfiles[profile] = {
             'properties': properties.copy(),
             'macros': macros.copy(),
